@@ -211,6 +211,11 @@ func RepExprs(yield func(name string, x X)) {
 		FrameType: "ROWS", Start: FrameBound{Type: "CURRENT ROW"}, End: &FrameBound{Type: "FOLLOWING", Value: xp(Int("2"))}}}))
 	yield("case-searched", Case(nil, []When{{Bin(">", Col("c1"), Int("1")), Str("s1")}}, xp(Str("s2"))))
 	yield("case-simple", Case(xp(Col("c1")), []When{{Int("1"), Str("s1")}, {Int("2"), Str("s2")}}, nil))
+	// the optional parts of CASE in every combination the single forms above leave out, with a name of its own in every position
+	yield("case-simple-else", Case(xp(Col("c1")), []When{{Int("1"), Func("f1", []X{Col("c4")}, FuncOpts{})}, {Int("2"), Subq(simpleSel("t8"))}}, xp(Col("c5"))))
+	yield("case-simple-one-when-else", Case(xp(Col("c1")), []When{{Col("c2"), Col("c3")}}, xp(Col("c5"))))
+	yield("case-simple-three-whens-else", Case(xp(Col("c1")), []When{{Int("1"), Col("c2")}, {Int("2"), Col("c3")}, {Int("3"), Func("f2", []X{Col("c4")}, FuncOpts{})}}, xp(Str("s9"))))
+	yield("case-searched-three-whens", Case(nil, []When{{Bin(">", Col("c1"), Int("1")), Col("c2")}, {Bin("<", Col("c3"), Int("2")), Col("c4")}, {Col("c5"), Func("f2", []X{Col("c6")}, FuncOpts{})}}, nil))
 	yield("cast", Cast(Col("c1"), "VARCHAR(10)"))
 	yield("cast-op", CastOp(Col("c1"), "int"))
 	yield("cast-op-params", CastOp(Col("c1"), "numeric(10,2)"))
